@@ -12,6 +12,7 @@ import (
 	"github.com/btcsuite/btcwallet/wtxmgr"
 
 	"verifsim/core"
+	"verifsim/simchain"
 )
 
 // C12 at wallet level. ledgersim decides the lease rules for wtxmgr.Store on
@@ -59,7 +60,7 @@ func genC12w(r *core.Rand, p *core.Plan) {
 		n = r.Range(10, 36)
 	}
 	for i := 0; i < n; i++ {
-		switch r.Weighted([]int{24, 8, 8, 14, 8, 10, 6, 8}) {
+		switch r.Weighted([]int{24, 8, 8, 14, 8, 10, 6, 8, 8}) {
 		case 0:
 			p.Ops = append(p.Ops, core.Op{K: "lease12", A: []int64{int64(r.Intn(12)), int64(r.Intn(2)), int64(r.Range(60, 6000))}})
 		case 1:
@@ -80,6 +81,13 @@ func genC12w(r *core.Rand, p *core.Plan) {
 			p.Ops = append(p.Ops, core.Op{K: "buildwhole", A: []int64{int64(r.Intn(12)), int64(r.Range(1, 20)) * 1000}})
 			p.Ops = append(p.Ops, core.Op{K: "stop"}, core.Op{K: "submitbuilt"},
 				core.Op{K: "mine", A: []int64{1, 100, -1, 600, int64(r.Uint64() >> 1)}}, core.Op{K: "start"}, core.Op{K: "sync"})
+		case 8:
+			// a leased output of an unconfirmed payment that is then replaced
+			// by a conflicting confirmed one: its lease record outlives it
+			p.Ops = append(p.Ops, core.Op{K: "fund", A: []int64{int64(r.Intn(4)), int64(r.Range(2, 60)) * 1e6}}, core.Op{K: "sync"},
+				core.Op{K: "lease12", A: []int64{int64(r.Intn(12)), int64(r.Intn(2)), int64(r.Range(600, 6000)), 1}},
+				core.Op{K: "lease12", A: []int64{int64(r.Intn(12)), int64(r.Intn(2)), int64(r.Range(600, 6000))}},
+				core.Op{K: "replacefund", A: []int64{int64(r.Intn(4)), int64(r.Intn(4))}}, core.Op{K: "sync"})
 		case 5:
 			p.Ops = append(p.Ops, core.Op{K: "mine", A: []int64{1, 100, -1, 600, int64(r.Uint64() >> 1)}}, core.Op{K: "sync"})
 		case 6:
@@ -125,6 +133,18 @@ func (rs *runState) lease12(step int, op core.Op) {
 		_, leasedBefore := x.leases12[c.op]
 		if offered || leasedBefore {
 			cs = append(cs, c)
+		}
+	}
+	if op.Arg(3) == 1 {
+		// prefer a coin of a still unconfirmed payment
+		var un []coin
+		for _, c := range cs {
+			if c.height < 0 {
+				un = append(un, c)
+			}
+		}
+		if len(un) > 0 {
+			cs = un
 		}
 	}
 	if len(cs) == 0 {
@@ -296,6 +316,13 @@ func (x *world) checkC12w(label string) {
 		spender, spent := x.node.SpentBy(o)
 		confirmedSpend := spent && x.node.Confirmed(spender) >= 0
 		active := !l.released && time.Now().Before(l.expiry)
+		if x.node.Confirmed(o.Hash) < 0 && !x.node.InMempool(o.Hash) {
+			// the transaction that created the output is gone (replaced by a
+			// conflicting one): what becomes of its lease record is not
+			// prescribed, the other leases must be unaffected
+			x.env.Count("probe.c12w-lease-on-vanished-output")
+			continue
+		}
 		switch {
 		case confirmedSpend:
 			if lo, ok := listed[o]; ok {
@@ -336,4 +363,35 @@ func (x *world) checkC12w(label string) {
 		}
 	}
 	_ = fmt.Sprint
+}
+
+// replacefund: an unconfirmed payment to the wallet is replaced by a
+// conflicting transaction (same input, paying another wallet address) that
+// confirms at once.
+func (rs *runState) replacefund(step int, op core.Op) {
+	x := rs.x
+	var cands []*wire.MsgTx
+	for _, t := range x.funding {
+		if x.node.InMempool(t.TxHash()) && len(t.TxIn) == 1 {
+			cands = append(cands, t)
+		}
+	}
+	if len(cands) == 0 || len(x.issuedAddrs) == 0 {
+		return
+	}
+	f := cands[int(uint64(op.Arg(0))%uint64(len(cands)))]
+	a := x.issuedAddrs[int(uint64(op.Arg(1))%uint64(len(x.issuedAddrs)))]
+	tx := wire.NewMsgTx(2)
+	tx.AddTxIn(&wire.TxIn{PreviousOutPoint: f.TxIn[0].PreviousOutPoint, Sequence: 0xfffffffd})
+	tx.AddTxOut(payTo(a.addr, f.TxOut[0].Value-1500))
+	b := x.node.Mine(simchain.MineOpts{Txs: []*wire.MsgTx{tx}, CoinbaseValue: 50e8, Dt: 10 * time.Minute})
+	for _, t := range b.Msg.Transactions {
+		if t.TxHash() == tx.TxHash() {
+			x.funding = append(x.funding, tx)
+			x.env.Count("probe.c12w-payment-replaced-by-conflict")
+			x.env.Eff()
+			x.env.Logf("%d replacefund %s replaced by %s in block %d", step, short(f.TxHash()), short(tx.TxHash()), b.Height)
+			return
+		}
+	}
 }
